@@ -128,7 +128,7 @@ func dedupSorted(l []string) []string {
 
 // goDump loads the files in the given order into fresh Modules, calls Process and renders what
 // C11 observes.  Panics are turned into "crash …".
-func goDump(files []srcFile, order []int) (out string) {
+func goDump(files []srcFile, order []int, again bool) (out string) {
 	defer func() {
 		if r := recover(); r != nil {
 			out = fmt.Sprintf("crash panic: %v", r)
@@ -140,7 +140,18 @@ func goDump(files []srcFile, order []int) (out string) {
 			return "loaderr"
 		}
 	}
-	errs := ms.Process()
+	out = renderGo(ms, ms.Process())
+	if again {
+		// the AST mutation (Identity.Values) persists: a second Process on the same Modules must give the same
+		if second := renderGo(ms, ms.Process()); second != out {
+			return "second-process-differs " + out + " ### " + second
+		}
+	}
+	return out
+}
+
+// renderGo renders what C11 observes after a Process call that returned errs.
+func renderGo(ms *yang.Modules, errs []error) string {
 	var errLines []string
 	linkFail := false
 	for _, e := range errs {
@@ -246,7 +257,7 @@ func childMain() {
 			} else {
 				var ans childAns
 				for k := 0; k < rq.Runs; k++ {
-					ans.Dumps = append(ans.Dumps, goDump(rq.Files, rq.Order[k]))
+					ans.Dumps = append(ans.Dumps, goDump(rq.Files, rq.Order[k], k == rq.Runs-1))
 				}
 				b, _ := json.Marshal(ans)
 				out.Write(b)
@@ -1064,7 +1075,16 @@ func main() {
 				continue
 			}
 			differ := false
-			for k := 1; k < len(g); k++ {
+			for k := 0; k < len(g); k++ {
+				if strings.HasPrefix(g[k], "second-process-differs") {
+					parts := strings.SplitN(strings.TrimPrefix(g[k], "second-process-differs "), " ### ", 2)
+					report(lib.Disagreement{Kind: "spec", Go: []string{decodeDump(parts[0]), decodeDump(parts[len(parts)-1])}, Model: decodeDump(model), SpecVerdict: "violates",
+						What: fmt.Sprintf("a second Process() on the same Modules (run %d) gives a different result than the first", k)})
+					differ = true
+					break
+				}
+			}
+			for k := 1; k < len(g) && !differ; k++ {
 				if g[k] != g[0] {
 					report(lib.Disagreement{Kind: "spec", Go: []string{decodeDump(g[0]), decodeDump(g[k])}, Model: decodeDump(model), SpecVerdict: "violates",
 						What: fmt.Sprintf("the result for one source set differs between run 0 and run %d (fresh Modules, load order %v): it is not a function of the schema", k, tc.order(k))})
